@@ -1966,3 +1966,44 @@ func nullableDefCase(i int) *sem.Case {
 	}
 	return c
 }
+
+// strataForC01 lists the hand-built strata of the semantic checks (those C01 does not draw itself): whatever a
+// stratum is meant to show about accept/reject, its schema is one the generator handles, so the emitted file(s)
+// must be valid Go - a semantic check silently loses a stratum whose program stops building, C01 does not.
+func strataForC01(ctx *Ctx) []*sem.Case {
+	var out []*sem.Case
+	rng := func(name string, i int) *sg.Rng { return sg.NewRng(ctx.Seed, fmt.Sprintf("C01-strata-%s-%d", name, i)) }
+	add := func(n int, f func(i int) *sem.Case) {
+		for i := 0; i < n; i++ {
+			if c := f(i); c != nil && c != skipCase {
+				out = append(out, c)
+			}
+		}
+	}
+	add(6, nullableBranchCase)
+	add(12, nullableDefCase)
+	add(16, nestedOverlapCase)
+	add(9, refSiblingCase)
+	add(8, typelessDefCase)
+	add(14, sameStemCase)
+	add(12, sameBaseDirCase)
+	add(8, fileCycleCase)
+	add(10, formatCase)
+	add(16, fractionalMultipleCase)
+	add(4, nullItemsCase)
+	add(8, patternPropsCase)
+	add(12, dashNameCase)
+	add(8, percentNameCase)
+	add(5, lenientFormatCase)
+	add(12, stringOverlapCase)
+	add(24, sharedBranchAnyOfCase)
+	add(8, anyOfOverlapCase)
+	add(8, bothDefsKeywordsCase)
+	add(6, untypedDefaultCase)
+	add(12, func(i int) *sem.Case { return sameRefTextTwinCase(ctx, i, rng("twin", i), 12) })
+	add(8, func(i int) *sem.Case { return crossBranchCase(i, rng("cross", i)) })
+	add(24, func(i int) *sem.Case { return sharedNodeCase(i, rng("shared", i)) })
+	add(12, func(i int) *sem.Case { return sameNameTwinCase(ctx, i, rng("samename", i)) })
+	out = append(out, c19Shapes(ctx)...)
+	return out
+}
